@@ -1,11 +1,47 @@
-"""C05 -- see DESIGN.md section 6 and checks/hosts_common.py (spec/Hosts.tla, HostsMC.tla, HostsTrace.tla)."""
+"""C05 -- see DESIGN.md section 6 and checks/hosts_common.py (spec/Hosts.tla, HostsMC.tla, HostsTrace.tla).
+
+Thorough tier additionally discharges an inductive invariant of the table structure with Apalache
+(spec/HostsInd.tla: Init => IndInv and IndInv /\ Next => IndInv'), i.e. the C05 structural invariant
+holds in the abstract model after histories of ANY length, not only up to TLC's depth bound."""
+import os
+import re
+import shutil
+import subprocess
+import time
+
 import hosts_common
+import vlib
 
 LEVEL = "model_checking"
 
 
+def apalache_inductive(ctx):
+    d = os.path.join(ctx.scratch, "apalache")
+    os.makedirs(d, exist_ok=True)
+    shutil.copy(os.path.join(vlib.SPEC, "HostsInd.tla"), d)
+    out = {}
+    for name, args in (("init_implies_inv", ["--init=Init", "--length=0"]), ("inv_is_inductive", ["--init=IndInit", "--length=1"])):
+        t0 = time.time()
+        try:
+            p = subprocess.run(["apalache-mc", "check", "--cinit=CInit", "--inv=IndInv"] + args + ["HostsInd.tla"],
+                               cwd=d, stdout=subprocess.PIPE, stderr=subprocess.STDOUT, text=True, timeout=2400)
+        except (subprocess.TimeoutExpired, OSError) as ex:
+            out[name] = {"result": "not completed: %s" % type(ex).__name__, "wall_s": round(time.time() - t0, 1)}
+            continue
+        m = re.search(r"The outcome is: (\w+)", p.stdout)
+        res = m.group(1) if m else "unknown"
+        out[name] = {"result": res, "wall_s": round(time.time() - t0, 1)}
+        if res == "Error":
+            raise vlib.InfraError("Apalache: IndInv of spec/HostsInd.tla is not inductive (model-level failure, %s)\n%s" % (name, p.stdout[-2000:]))
+    return out
+
+
 def run(ctx):
     hosts_common.run_family(ctx, ["C05"], ["free", "notify"], shared=True)
+    if not ctx.quick:
+        ctx.coverage["apalache_inductive_invariant"] = apalache_inductive(ctx)
+        ctx.assumptions.append("spec/HostsInd.tla abstracts MAC host lists to sets and ageing to an arbitrary choice of hosts; "
+                               "its inductive invariant is about the model, the binding to the code is the trace validation")
 
 
 def replay(ctx, path):
